@@ -1989,4 +1989,694 @@ theorem nfs4Core_obj (wide : Bool) (b : Nat → List Ch) (word tyw : List Ch) (t
     isNfs4Perms_permChars, isNfs4Flags_flagChars, not_true_eq_false, nfs4_perm_back p hp,
     isintOr_nil, Nat.add_zero]
 
+/-! ### One generated entry parses back to itself -/
+
+/-- A qualifier name the text form can carry: none of the characters the parser
+gives a meaning to (NUL, blank, tab, newline, `,` `:` `#`), and not a number. -/
+def NameOK (name : List Ch) : Prop := Clean name ∧ (name ≠ [] → ∃ c ∈ name, ¬ isDigit c)
+
+/-- Qualifiers as the property quantifies them: a user/group entry has a
+non-negative id (or, when it has a name, possibly no id) and a name the text
+form can carry; the other tags have no qualifier. -/
+structure QualOK (e : Entry) : Prop where
+  ug : IsUG e.tag → NameOK e.name ∧ (if e.name = [] then 0 ≤ e.id else -1 ≤ e.id)
+  other : ¬ IsUG e.tag → e.id = -1 ∧ e.name = []
+
+/-- The name an entry has after the round trip: an entry without a name comes
+back named by its id. -/
+def rtName (e : Entry) : List Ch :=
+  if IsUG e.tag ∧ e.name = [] then digits e.id.toNat else e.name
+
+/-- What the parser loop does once an entry has been recognised. -/
+def afterAdd (wide : Bool) (wantType : Nat) (rest : List Ch) (o : ParseOut) (ty pm tg : Nat)
+    (id : Int) (nm : List Ch) : Except Fault ParseOut :=
+  if (addEntry o.acl ty pm tg id nm).2 = .failed ∨ (addEntry o.acl ty pm tg id nm).2 = .fatal then
+    .ok { o with acl := (addEntry o.acl ty pm tg id nm).1, status := (addEntry o.acl ty pm tg id nm).2,
+                 added := o.added + 1 }
+  else parseLoop wide wantType rest
+    { o with acl := (addEntry o.acl ty pm tg id nm).1,
+             status := if (addEntry o.acl ty pm tg id nm).2 ≠ .ok then .warn else o.status,
+             added := o.added + 1 }
+
+theorem takeWhile_clean (b : List Ch) (h : Clean b) : b.takeWhile (· ≠ 0) = b := by
+  induction b with
+  | nil => rfl
+  | cons c t ih =>
+    have := (h c (by simp)).1
+    have ih' := ih (fun d hd => h d (by simp [hd]))
+    simp only [List.takeWhile_cons, this, ne_eq, not_false_eq_true, decide_true, if_true] at ih' ⊢
+    rw [ih']
+
+theorem digits_clean (n : Nat) : Clean (digits n) := by
+  intro c hc
+  have := digits_all_digit n c hc
+  unfold isDigit at this; unfold CleanCh
+  omega
+
+def cleanB (b : List Ch) : Bool :=
+  b.all fun c => c != 0 && c != 32 && c != 9 && c != 10 && c != 44 && c != 58 && c != 35
+
+theorem clean_of_cleanB (b : List Ch) (h : cleanB b = true) : Clean b := by
+  intro c hc
+  have := List.all_eq_true.mp h c hc
+  unfold CleanCh
+  simp only [Bool.and_eq_true, bne_iff_ne, ne_eq] at this
+  obtain ⟨⟨⟨⟨⟨⟨h1, h2⟩, h3⟩, h4⟩, h5⟩, h6⟩, h7⟩ := this
+  exact ⟨h1, h2, h3, h4, h5, h6, h7⟩
+
+theorem str_clean : Clean (str "user") ∧ Clean (str "group") ∧ Clean (str "mask") ∧ Clean (str "other") ∧
+    Clean (str "owner@") ∧ Clean (str "group@") ∧ Clean (str "everyone@") ∧ Clean (str "default") ∧
+    Clean (str "allow") ∧ Clean (str "deny") ∧ Clean (str "audit") ∧ Clean (str "alarm") := by
+  refine ⟨?_, ?_, ?_, ?_, ?_, ?_, ?_, ?_, ?_, ?_, ?_, ?_⟩ <;> exact clean_of_cleanB _ (by decide)
+
+theorem mapChars_clean (m : List (Nat × Nat)) (p : Nat) (c : Bool) (h : ∀ x ∈ m, CleanCh x.2) :
+    Clean (mapChars m p c) := by
+  induction m with
+  | nil => intro x hx; simp [mapChars] at hx
+  | cons a t ih =>
+    rw [mapChars_cons]
+    intro x hx
+    rcases List.mem_append.mp hx with hx | hx
+    · split at hx
+      · simp at hx; rw [hx]; exact h a (by simp)
+      · split at hx
+        · simp at hx
+        · simp at hx; rw [hx]; unfold CleanCh; decide
+    · exact ih (fun y hy => h y (by simp [hy])) x hx
+
+theorem maps_clean : (∀ x ∈ permMap, CleanCh x.2) ∧ (∀ x ∈ permMapW, CleanCh x.2) ∧
+    (∀ x ∈ flagMap, CleanCh x.2) ∧ (∀ x ∈ flagMapW, CleanCh x.2) := by
+  have key : ∀ m : List (Nat × Nat), cleanB (m.map (·.2)) = true → ∀ x ∈ m, CleanCh x.2 :=
+    fun m h x hx => clean_of_cleanB _ h x.2 (List.mem_map_of_mem hx)
+  exact ⟨key _ (by decide), key _ (by decide), key _ (by decide), key _ (by decide)⟩
+
+theorem permChars_clean (wide : Bool) (p : Nat) (c : Bool) : Clean (permChars wide p c) := by
+  unfold permChars; cases wide
+  · exact mapChars_clean _ _ _ maps_clean.1
+  · exact mapChars_clean _ _ _ maps_clean.2.1
+
+theorem flagChars_clean (wide : Bool) (p : Nat) (c : Bool) : Clean (flagChars wide p c) := by
+  unfold flagChars; cases wide
+  · exact mapChars_clean _ _ _ maps_clean.2.2.1
+  · exact mapChars_clean _ _ _ maps_clean.2.2.2
+
+
+theorem default_facts : isDefaultSpec (str "default") = true ∧ (str "default").length = 7 ∧
+    isDefaultSpec (str "user") = false ∧ isDefaultSpec (str "group") = false ∧
+    isDefaultSpec (str "mask") = false ∧ isDefaultSpec (str "other") = false ∧
+    str "default:" = str "default" ++ [58] := by decide
+
+theorem posixTag_words : posixTagSpec (str "user") = tagUserObj ∧ posixTagSpec (str "group") = tagGroupObj ∧
+    posixTagSpec (str "mask") = tagMask ∧ posixTagSpec (str "other") = tagOther := by decide
+
+/-- The body function the parser sees for a list of field bodies. -/
+def bfun (k : Nat) (bs : List (List Ch)) : Nat → List Ch := fun i => if i < k then bs.getD i [] else []
+
+/-- Reduction of an entry with or without the "default:" prefix to `posixRestCore`. -/
+theorem posix_step (wide : Bool) (wantType : Nat) (pfx : Bool) (word : List Ch) (more : List (List Ch))
+    (tl rest : List Ch) (o : ParseOut)
+    (hword : word = str "user" ∨ word = str "group" ∨ word = str "mask" ∨ word = str "other")
+    (hw : wantType ≠ typeNfs4)
+    (hc : ∀ b ∈ word :: more, Clean b) (hlast : (word :: more).getLast (by simp) ≠ [])
+    (hend : EntryEnd wide tl rest)
+    (ty pm tg : Nat) (id : Int) (nm : List Ch) (hnm : Clean nm)
+    (hcore : posixRestCore wide ((word :: more).length + (if pfx then 1 else 0))
+        (bfun 5 ((if pfx then [str "default"] else []) ++ word :: more)) (if pfx then 1 else 0)
+        (if pfx then typeDefault else wantType) = .entry ty pm tg id nm) :
+    parseLoop wide wantType
+        ((if pfx then str "default:" else []) ++ joinColon (word :: more) ++ tl) o =
+      afterAdd wide wantType rest o ty pm tg id nm := by
+  have hwc : Clean word := hc word (by simp)
+  have hwne : word ≠ [] := by rcases hword with h | h | h | h <;> rw [h] <;> decide
+  obtain ⟨w0, wt, hw0⟩ : ∃ w0 wt, word = w0 :: wt := by
+    cases word with
+    | nil => exact (hwne rfl).elim
+    | cons a b => exact ⟨a, b, rfl⟩
+  have hw0ne : w0 ≠ 0 ∧ w0 ≠ 35 := by
+    have := hwc w0 (by rw [hw0]; simp)
+    exact ⟨this.1, this.2.2.2.2.2.2⟩
+  have hnd : isDefaultSpec word = false := by
+    rcases hword with h | h | h | h <;> rw [h] <;> simp [default_facts]
+  cases pfx with
+  | false =>
+    simp only [Bool.false_eq_true, if_false, List.nil_append, Nat.add_zero] at hcore ⊢
+    have hjc : ∃ t0, joinColon (word :: more) ++ tl = w0 :: t0 := by
+      cases more with
+      | nil => exact ⟨wt ++ tl, by simp [joinColon, hw0]⟩
+      | cons m1 mt => exact ⟨_, by simp [joinColon, hw0]; rfl⟩
+    obtain ⟨t0, ht0⟩ := hjc
+    have hcore' : bodiesCore wide (word :: more) w0 wantType = .entry ty pm tg id nm := by
+      unfold bodiesCore posixCore
+      simp only [hw0ne.2, if_false, hw, ne_eq, not_false_eq_true, if_true]
+      have hb0 : (if 0 < 5 then (word :: more).getD 0 [] else []) = word := by simp
+      simp only [hb0, hnd, Bool.false_eq_true, if_false]
+      exact hcore
+    have := entry_step wide wantType (word :: more) tl rest o w0 t0 (by simp) hc hlast hend ht0
+      hw0ne.1 ty pm tg id nm hcore'
+    rw [this, takeWhile_clean nm hnm]; rfl
+  | true =>
+    simp only [if_true, List.singleton_append] at hcore ⊢
+    have hjoin : str "default:" ++ joinColon (word :: more) = joinColon (str "default" :: word :: more) := by
+      simp [joinColon, default_facts]
+    rw [hjoin]
+    have hjc : ∃ t0, joinColon (str "default" :: word :: more) ++ tl = 100 :: t0 := by
+      exact ⟨_, by simp [joinColon]; rfl⟩
+    obtain ⟨t0, ht0⟩ := hjc
+    have hcore' : bodiesCore wide (str "default" :: word :: more) 100 wantType = .entry ty pm tg id nm := by
+      unfold bodiesCore posixCore
+      simp only [hw, ne_eq, not_false_eq_true, if_true]
+      have hb0 : (if 0 < 5 then (str "default" :: word :: more).getD 0 [] else []) = str "default" := by simp
+      have h35 : ¬ (100 : Nat) = 35 := by decide
+      simp only [hb0, default_facts, h35, if_false, if_true, Nat.lt_irrefl, gt_iff_lt]
+      exact hcore
+    have hc' : ∀ b ∈ str "default" :: word :: more, Clean b := by
+      intro b hb
+      rcases List.mem_cons.mp hb with h | h
+      · rw [h]; exact str_clean.2.2.2.2.2.2.2.1
+      · exact hc b h
+    have := entry_step wide wantType (str "default" :: word :: more) tl rest o 100 t0 (by simp) hc'
+      (by simpa [List.getLast_cons] using hlast) hend ht0 (by decide) ty pm tg id nm hcore'
+    rw [this, takeWhile_clean nm hnm]; rfl
+
+
+theorem entryText_extra (wide : Bool) (flags : Nat) (e : Entry) (hx : hasFlag flags styleExtraId = true) :
+    entryText wide flags e =
+      appendEntry wide (decide (e.type = typeDefault ∧ hasFlag flags styleMarkDefault = true))
+        e.type e.tag flags e.name e.permset e.id := by
+  unfold entryText
+  cases wide <;> simp [hx]
+
+theorem appendEntry_posix (wide pfx : Bool) (ty tag flags : Nat) (name : List Ch) (perm : Nat) (id : Int)
+    (hp : IsPosix ty) :
+    appendEntry wide pfx ty tag flags name perm id =
+      (if pfx then str "default:" else []) ++ tagWord false tag ++ [58] ++
+        (qualPart ty tag flags name id).1 ++ rwxChars perm ++
+        (if (qualPart ty tag flags name id).2 ≠ -1 then 58 :: appendId (qualPart ty tag flags name id).2
+         else []) := by
+  have hb := posix_bits hp
+  simp [appendEntry, permPart, hb.1, hb.2, rwxChars]
+
+theorem tagWord_posix : tagWord false tagUser = str "user" ∧ tagWord false tagUserObj = str "user" ∧
+    tagWord false tagGroup = str "group" ∧ tagWord false tagGroupObj = str "group" ∧
+    tagWord false tagMask = str "mask" ∧ tagWord false tagOther = str "other" := by decide
+
+theorem getLast_three (a b c : List Ch) : [a, b, c].getLast (by simp) = c := rfl
+theorem getLast_four (a b c d : List Ch) : [a, b, c, d].getLast (by simp) = d := rfl
+theorem getLast_two (a b : List Ch) : [a, b].getLast (by simp) = b := rfl
+
+theorem rwxChars_ne_nil (p : Nat) : rwxChars p ≠ [] := by simp [rwxChars]
+
+/-- A POSIX.1e entry as `archive_acl_to_text_*` prints it with ids is read back by the
+parser loop as exactly that entry. -/
+theorem posix_entry_parse' (wide : Bool) (flags wantType : Nat) (e : Entry) (tl rest : List Ch)
+    (o : ParseOut) (pv : Nat)
+    (htag_ok : IsUG e.tag ∨ e.tag = tagUserObj ∨ e.tag = tagGroupObj ∨
+      (IsPosix e.type ∧ (e.tag = tagMask ∨ e.tag = tagOther)) ∨ (IsNfs4 e.type ∧ e.tag = tagEveryone))
+    (hidmax : e.id ≤ 2147483647) (hperm : rwxVal e.permset = pv)
+    (hq : QualOK e) (hp : IsPosix e.type)
+    (hx : hasFlag flags styleExtraId = true)
+    (hwant : wantType = typeAccess ∨ wantType = typeDefault)
+    (hty : e.type = wantType ∨ (e.type = typeDefault ∧ hasFlag flags styleMarkDefault = true))
+    (hend : EntryEnd wide tl rest) :
+    parseLoop wide wantType (entryText wide flags e ++ tl) o =
+      afterAdd wide wantType rest o e.type pv e.tag e.id (rtName e) := by
+  have hw : wantType ≠ typeNfs4 := by rcases hwant with h | h <;> rw [h] <;> decide
+  have hb := posix_bits hp
+  rw [entryText_extra wide flags e hx, appendEntry_posix _ _ _ _ _ _ _ _ hp]
+  generalize hpfx : decide (e.type = typeDefault ∧ hasFlag flags styleMarkDefault = true) = pfx
+  have htype : (if pfx = true then typeDefault else wantType) = e.type := by
+    cases pfx with
+    | true => simp at hpfx; simp [hpfx.1]
+    | false =>
+      simp at hpfx
+      rcases hty with h | h
+      · simp [h]
+      · have := hpfx h.1; rw [h.2] at this; cases this
+  rcases htag_ok with hug | ht | ht | ⟨_, ht⟩ | ⟨hn4, _⟩
+  · -- user / group
+    obtain ⟨⟨hclean, hnum⟩, hidr⟩ := hq.ug hug
+    rw [qualPart_ug _ _ _ _ _ hug]
+    obtain ⟨word, tagObj, hwd, hwordc, htg, hobj, hnt, hwclean, hwne⟩ :
+        ∃ word tagObj, tagWord false e.tag = word ∧
+          (word = str "user" ∨ word = str "group" ∨ word = str "mask" ∨ word = str "other") ∧
+          posixTagSpec word = tagObj ∧ (tagObj = tagUserObj ∨ tagObj = tagGroupObj) ∧
+          (if tagObj = tagUserObj then tagUser else tagGroup) = e.tag ∧ Clean word ∧ word ≠ [] := by
+      rcases hug with h | h <;> rw [h]
+      · exact ⟨str "user", tagUserObj, by decide, Or.inl rfl, by decide, Or.inl rfl, by decide,
+          str_clean.1, by decide⟩
+      · exact ⟨str "group", tagGroupObj, by decide, Or.inr (Or.inl rfl), by decide, Or.inr rfl, by decide,
+          str_clean.2.1, by decide⟩
+    rw [hwd]
+    by_cases hne : e.name = []
+    · -- id printed in place of the name
+      have hid0 : 0 ≤ e.id := by simpa [hne] using hidr
+      have hidn : ((e.id.toNat : Nat) : Int) = e.id := by omega
+      have hrt : rtName e = digits e.id.toNat := by simp [rtName, hug, hne]
+      simp only [hne, ne_eq, not_true_eq_false, if_false, hb.2, if_true]
+      rw [hrt]
+      have key := posix_step wide wantType pfx word [digits e.id.toNat, rwxChars e.permset] tl rest o
+        hwordc hw
+        (by
+          intro b hb'
+          simp only [List.mem_cons, List.not_mem_nil, or_false] at hb'
+          rcases hb' with h | h | h <;> rw [h]
+          · exact hwclean
+          · exact digits_clean _
+          · exact rwxChars_clean _)
+        (by rw [getLast_three]; exact rwxChars_ne_nil _) hend
+        e.type pv e.tag e.id (digits e.id.toNat) (digits_clean _)
+        (by
+          rw [htype]
+          have := posixRest_unnamed wide (3 + (if pfx = true then 1 else 0))
+            (bfun 5 ((if pfx = true then [str "default"] else []) ++
+              [word, digits e.id.toNat, rwxChars e.permset])) (if pfx = true then 1 else 0) e.type
+            word e.permset e.id.toNat tagObj (by cases pfx <;> rfl) (by cases pfx <;> rfl)
+            hwne htg hobj (by cases pfx <;> rfl) (by omega) (by cases pfx <;> rfl)
+          rw [hperm, hnt, hidn] at this
+          exact this)
+      simpa [joinColon, appendId, List.append_assoc] using key
+    · -- a name, and the id as a trailing field unless it is -1
+      have hnd := hnum hne
+      have hid1 : -1 ≤ e.id := by simpa [hne] using hidr
+      have hrt : rtName e = e.name := by simp [rtName, hne]
+      simp only [hne, ne_eq, not_false_eq_true, if_true]
+      rw [hrt]
+      by_cases hidm : e.id = -1
+      · simp only [hidm, not_true_eq_false, if_false, List.append_nil]
+        have key := posix_step wide wantType pfx word [e.name, rwxChars e.permset] tl rest o
+          hwordc hw
+          (by
+            intro b hb'
+            simp only [List.mem_cons, List.not_mem_nil, or_false] at hb'
+            rcases hb' with h | h | h <;> rw [h]
+            · exact hwclean
+            · exact hclean
+            · exact rwxChars_clean _)
+          (by rw [getLast_three]; exact rwxChars_ne_nil _) hend
+          e.type pv e.tag (-1) e.name hclean
+          (by
+            rw [htype]
+            have := posixRest_named_noid wide (3 + (if pfx = true then 1 else 0))
+              (bfun 5 ((if pfx = true then [str "default"] else []) ++
+                [word, e.name, rwxChars e.permset])) (if pfx = true then 1 else 0) e.type
+              word e.name e.permset tagObj (by cases pfx <;> rfl) (by cases pfx <;> rfl)
+              hwne htg hobj (by cases pfx <;> rfl) hne hnd (by cases pfx <;> rfl)
+            rw [hperm, hnt] at this
+            exact this)
+        simpa [joinColon, List.append_assoc] using key
+      · have hid0 : 0 ≤ e.id := by omega
+        have hidn : ((e.id.toNat : Nat) : Int) = e.id := by omega
+        simp only [hidm, not_false_eq_true, if_true]
+        have key := posix_step wide wantType pfx word
+          [e.name, rwxChars e.permset, digits e.id.toNat] tl rest o hwordc hw
+          (by
+            intro b hb'
+            simp only [List.mem_cons, List.not_mem_nil, or_false] at hb'
+            rcases hb' with h | h | h | h <;> rw [h]
+            · exact hwclean
+            · exact hclean
+            · exact rwxChars_clean _
+            · exact digits_clean _)
+          (by rw [getLast_four]; exact digits_ne_nil _) hend
+          e.type pv e.tag e.id e.name hclean
+          (by
+            rw [htype]
+            have := posixRest_named_id wide (4 + (if pfx = true then 1 else 0))
+              (bfun 5 ((if pfx = true then [str "default"] else []) ++
+                [word, e.name, rwxChars e.permset, digits e.id.toNat])) (if pfx = true then 1 else 0) e.type
+              word e.name e.permset e.id.toNat tagObj (by cases pfx <;> rfl) (by cases pfx <;> rfl)
+              hwne htg hobj (by cases pfx <;> rfl) hne hnd (by cases pfx <;> rfl)
+              (by cases pfx <;> rfl) (by omega)
+            rw [hperm, hnt, hidn] at this
+            exact this)
+        simpa [joinColon, appendId, List.append_assoc] using key
+  · -- user_obj
+    have hnug : ¬ IsUG e.tag := by unfold IsUG; rw [ht]; decide
+    obtain ⟨hidm, hnm⟩ := hq.other hnug
+    have hrt : rtName e = [] := by simp [rtName, hnm, hnug]
+    rw [qualPart_other_posix _ _ _ _ _ hp (Or.inl ht), hrt, ht]
+    have hcol : (¬ hasFlag flags styleSolaris = true ∨ (tagUserObj ≠ tagOther ∧ tagUserObj ≠ tagMask)) :=
+      Or.inr (by decide)
+    simp only [hcol, if_true, not_true_eq_false, if_false, List.append_nil, tagWord_posix.2.1]
+    have key := posix_step wide wantType pfx (str "user") [[], rwxChars e.permset] tl rest o
+      (Or.inl rfl) hw
+      (by
+        intro b hb'
+        simp only [List.mem_cons, List.not_mem_nil, or_false] at hb'
+        rcases hb' with h | h | h <;> rw [h]
+        · exact str_clean.1
+        · intro c hc; simp at hc
+        · exact rwxChars_clean _)
+      (by rw [getLast_three]; exact rwxChars_ne_nil _) hend
+      e.type pv tagUserObj (-1) [] (by intro c hc; simp at hc)
+      (by
+        rw [htype]
+        have := posixRest_obj wide (3 + (if pfx = true then 1 else 0))
+          (bfun 5 ((if pfx = true then [str "default"] else []) ++
+            [str "user", [], rwxChars e.permset])) (if pfx = true then 1 else 0) e.type
+          (str "user") e.permset tagUserObj (by cases pfx <;> rfl) (by cases pfx <;> rfl)
+          (by decide) (by decide) (Or.inl rfl) (by cases pfx <;> rfl) (by cases pfx <;> rfl)
+        rw [hperm] at this
+        exact this)
+    rw [hidm]
+    simpa [joinColon, List.append_assoc] using key
+  · -- group_obj
+    have hnug : ¬ IsUG e.tag := by unfold IsUG; rw [ht]; decide
+    obtain ⟨hidm, hnm⟩ := hq.other hnug
+    have hrt : rtName e = [] := by simp [rtName, hnm, hnug]
+    rw [qualPart_other_posix _ _ _ _ _ hp (Or.inr (Or.inl ht)), hrt, ht]
+    have hcol : (¬ hasFlag flags styleSolaris = true ∨ (tagGroupObj ≠ tagOther ∧ tagGroupObj ≠ tagMask)) :=
+      Or.inr (by decide)
+    simp only [hcol, if_true, not_true_eq_false, if_false, List.append_nil, tagWord_posix.2.2.2.1]
+    have key := posix_step wide wantType pfx (str "group") [[], rwxChars e.permset] tl rest o
+      (Or.inr (Or.inl rfl)) hw
+      (by
+        intro b hb'
+        simp only [List.mem_cons, List.not_mem_nil, or_false] at hb'
+        rcases hb' with h | h | h <;> rw [h]
+        · exact str_clean.2.1
+        · intro c hc; simp at hc
+        · exact rwxChars_clean _)
+      (by rw [getLast_three]; exact rwxChars_ne_nil _) hend
+      e.type pv tagGroupObj (-1) [] (by intro c hc; simp at hc)
+      (by
+        rw [htype]
+        have := posixRest_obj wide (3 + (if pfx = true then 1 else 0))
+          (bfun 5 ((if pfx = true then [str "default"] else []) ++
+            [str "group", [], rwxChars e.permset])) (if pfx = true then 1 else 0) e.type
+          (str "group") e.permset tagGroupObj (by cases pfx <;> rfl) (by cases pfx <;> rfl)
+          (by decide) (by decide) (Or.inr rfl) (by cases pfx <;> rfl) (by cases pfx <;> rfl)
+        rw [hperm] at this
+        exact this)
+    rw [hidm]
+    simpa [joinColon, List.append_assoc] using key
+  · -- mask / other
+    have hnug : ¬ IsUG e.tag := by unfold IsUG; rcases ht with h | h <;> rw [h] <;> decide
+    obtain ⟨hidm, hnm⟩ := hq.other hnug
+    have hrt : rtName e = [] := by simp [rtName, hnm, hnug]
+    obtain ⟨word, hwd, hwordc, htg, hwclean⟩ :
+        ∃ word, tagWord false e.tag = word ∧
+          (word = str "user" ∨ word = str "group" ∨ word = str "mask" ∨ word = str "other") ∧
+          posixTagSpec word = e.tag ∧ Clean word := by
+      rcases ht with h | h <;> rw [h]
+      · exact ⟨str "mask", by decide, Or.inr (Or.inr (Or.inl rfl)), by decide, str_clean.2.2.1⟩
+      · exact ⟨str "other", by decide, Or.inr (Or.inr (Or.inr rfl)), by decide, str_clean.2.2.2.1⟩
+    have hwne : word ≠ [] := by rcases hwordc with h | h | h | h <;> rw [h] <;> decide
+    have hom : e.tag = tagOther ∨ e.tag = tagMask := by rcases ht with h | h <;> simp [h]
+    rw [qualPart_other_posix _ _ _ _ _ hp (by
+      rcases ht with h | h
+      · exact Or.inr (Or.inr (Or.inl h))
+      · exact Or.inr (Or.inr (Or.inr h))), hrt, hwd]
+    by_cases hsol : hasFlag flags styleSolaris = true
+    · have hcol : ¬ (¬ hasFlag flags styleSolaris = true ∨ (e.tag ≠ tagOther ∧ e.tag ≠ tagMask)) := by
+        intro h; rcases h with h | h
+        · exact h hsol
+        · rcases hom with h' | h'
+          · exact h.1 h'
+          · exact h.2 h'
+      simp only [hcol, if_false, not_true_eq_false, List.append_nil]
+      have key := posix_step wide wantType pfx word [rwxChars e.permset] tl rest o hwordc hw
+        (by
+          intro b hb'
+          simp only [List.mem_cons, List.not_mem_nil, or_false] at hb'
+          rcases hb' with h | h <;> rw [h]
+          · exact hwclean
+          · exact rwxChars_clean _)
+        (by rw [getLast_two]; exact rwxChars_ne_nil _) hend
+        e.type pv e.tag (-1) [] (by intro c hc; simp at hc)
+        (by
+          rw [htype]
+          have := posixRest_om_solaris wide (2 + (if pfx = true then 1 else 0))
+            (bfun 5 ((if pfx = true then [str "default"] else []) ++
+              [word, rwxChars e.permset])) (if pfx = true then 1 else 0) e.type
+            word e.permset e.tag (by cases pfx <;> rfl) (by cases pfx <;> rfl)
+            hwne htg hom (by cases pfx <;> rfl)
+          rw [hperm] at this
+          exact this)
+      rw [hidm]
+      simpa [joinColon, List.append_assoc] using key
+    · have hcol : (¬ hasFlag flags styleSolaris = true ∨ (e.tag ≠ tagOther ∧ e.tag ≠ tagMask)) :=
+        Or.inl hsol
+      simp only [hcol, if_true, not_true_eq_false, if_false, List.append_nil]
+      have key := posix_step wide wantType pfx word [[], rwxChars e.permset] tl rest o hwordc hw
+        (by
+          intro b hb'
+          simp only [List.mem_cons, List.not_mem_nil, or_false] at hb'
+          rcases hb' with h | h | h <;> rw [h]
+          · exact hwclean
+          · intro c hc; simp at hc
+          · exact rwxChars_clean _)
+        (by rw [getLast_three]; exact rwxChars_ne_nil _) hend
+        e.type pv e.tag (-1) [] (by intro c hc; simp at hc)
+        (by
+          rw [htype]
+          have := posixRest_om wide (3 + (if pfx = true then 1 else 0))
+            (bfun 5 ((if pfx = true then [str "default"] else []) ++
+              [word, [], rwxChars e.permset])) (if pfx = true then 1 else 0) e.type
+            word e.permset e.tag (by cases pfx <;> rfl) (by cases pfx <;> rfl)
+            hwne htg hom (by cases pfx <;> rfl) (by cases pfx <;> rfl)
+          rw [hperm] at this
+          exact this)
+      rw [hidm]
+      simpa [joinColon, List.append_assoc] using key
+  · -- everyone@ is NFSv4 only
+    exfalso
+    rcases hp with h | h <;> rcases hn4 with h' | h' | h' | h' <;> rw [h] at h' <;> revert h' <;> decide
+
+
+theorem posix_entry_parse (wide : Bool) (flags wantType : Nat) (e : Entry) (tl rest : List Ch)
+    (o : ParseOut) (hwf : EntryWF e) (hq : QualOK e) (hp : IsPosix e.type)
+    (hx : hasFlag flags styleExtraId = true)
+    (hwant : wantType = typeAccess ∨ wantType = typeDefault)
+    (hty : e.type = wantType ∨ (e.type = typeDefault ∧ hasFlag flags styleMarkDefault = true))
+    (hend : EntryEnd wide tl rest) :
+    parseLoop wide wantType (entryText wide flags e ++ tl) o =
+      afterAdd wide wantType rest o e.type e.permset e.tag e.id (rtName e) := by
+  have hperm : rwxVal e.permset = e.permset := by
+    have := hwf.perm_ok; rw [if_pos hp] at this
+    exact rwxVal_small ⟨e.permset, this⟩
+  exact posix_entry_parse' wide flags wantType e tl rest o e.permset hwf.tag_ok hwf.id_range.2 hperm hq hp
+    hx hwant hty hend
+
+/-! NFSv4 entries -/
+
+/-- The entry type word `append_entry` writes. -/
+def typeWord (ty : Nat) : List Ch :=
+  if ty = typeAllow then str "allow" else if ty = typeDeny then str "deny"
+  else if ty = typeAudit then str "audit" else if ty = typeAlarm then str "alarm" else []
+
+theorem typeWord_ok {ty : Nat} (h : IsNfs4 ty) :
+    nfs4TypeSpec (typeWord ty) = ty ∧ Clean (typeWord ty) ∧ typeWord ty ≠ [] ∧ ty ≠ 0 := by
+  rcases h with h | h | h | h <;> subst h
+  · exact ⟨by decide, str_clean.2.2.2.2.2.2.2.2.1, by decide, by decide⟩
+  · exact ⟨by decide, str_clean.2.2.2.2.2.2.2.2.2.1, by decide, by decide⟩
+  · exact ⟨by decide, str_clean.2.2.2.2.2.2.2.2.2.2.1, by decide, by decide⟩
+  · exact ⟨by decide, str_clean.2.2.2.2.2.2.2.2.2.2.2, by decide, by decide⟩
+
+theorem appendEntry_nfs4 (wide pfx : Bool) (ty tag flags : Nat) (name : List Ch) (perm : Nat) (id : Int)
+    (hn : IsNfs4 ty) :
+    appendEntry wide pfx ty tag flags name perm id =
+      (if pfx then str "default:" else []) ++ tagWord true tag ++ [58] ++
+        (qualPart ty tag flags name id).1 ++
+        (permChars wide perm (hasFlag flags styleCompact) ++ [58] ++
+         flagChars wide perm (hasFlag flags styleCompact) ++ [58] ++ typeWord ty) ++
+        (if (qualPart ty tag flags name id).2 ≠ -1 then 58 :: appendId (qualPart ty tag flags name id).2
+         else []) := by
+  have hb := nfs4_bits hn
+  simp [appendEntry, permPart, hb.1, hb.2, permChars, flagChars, typeWord]
+
+theorem nfs4Tag_words : nfs4TagSpec (str "user") = tagUser ∧ nfs4TagSpec (str "group") = tagGroup ∧
+    nfs4TagSpec (str "owner@") = tagUserObj ∧ nfs4TagSpec (str "group@") = tagGroupObj ∧
+    nfs4TagSpec (str "everyone@") = tagEveryone := by decide
+
+theorem tagWord_nfs4 : tagWord true tagUser = str "user" ∧ tagWord true tagUserObj = str "owner@" ∧
+    tagWord true tagGroup = str "group" ∧ tagWord true tagGroupObj = str "group@" ∧
+    tagWord true tagEveryone = str "everyone@" := by decide
+
+theorem nfs4_step (wide : Bool) (word : List Ch) (more : List (List Ch))
+    (tl rest : List Ch) (o : ParseOut)
+    (hwne : word ≠ [])
+    (hc : ∀ b ∈ word :: more, Clean b) (hlast : (word :: more).getLast (by simp) ≠ [])
+    (hend : EntryEnd wide tl rest)
+    (ty pm tg : Nat) (id : Int) (nm : List Ch) (hnm : Clean nm)
+    (hcore : nfs4Core wide (bfun 6 (word :: more)) = .entry ty pm tg id nm) :
+    parseLoop wide typeNfs4 (joinColon (word :: more) ++ tl) o =
+      afterAdd wide typeNfs4 rest o ty pm tg id nm := by
+  have hwc : Clean word := hc word (by simp)
+  obtain ⟨w0, wt, hw0⟩ : ∃ w0 wt, word = w0 :: wt := by
+    cases word with
+    | nil => exact (hwne rfl).elim
+    | cons a b => exact ⟨a, b, rfl⟩
+  have hw0ne : w0 ≠ 0 ∧ w0 ≠ 35 := by
+    have := hwc w0 (by rw [hw0]; simp)
+    exact ⟨this.1, this.2.2.2.2.2.2⟩
+  have hjc : ∃ t0, joinColon (word :: more) ++ tl = w0 :: t0 := by
+    cases more with
+    | nil => exact ⟨wt ++ tl, by simp [joinColon, hw0]⟩
+    | cons m1 mt => exact ⟨_, by simp [joinColon, hw0]; rfl⟩
+  obtain ⟨t0, ht0⟩ := hjc
+  have hcore' : bodiesCore wide (word :: more) w0 typeNfs4 = .entry ty pm tg id nm := by
+    unfold bodiesCore
+    simp only [hw0ne.2, if_false, ne_eq, not_true_eq_false]
+    exact hcore
+  have := entry_step wide typeNfs4 (word :: more) tl rest o w0 t0 (by simp) hc hlast hend ht0
+    hw0ne.1 ty pm tg id nm hcore'
+  rw [this, takeWhile_clean nm hnm]; rfl
+
+
+theorem getLast_five (a b c d e : List Ch) : [a, b, c, d, e].getLast (by simp) = e := rfl
+theorem getLast_six (a b c d e f : List Ch) : [a, b, c, d, e, f].getLast (by simp) = f := rfl
+
+/-- An NFSv4 entry as `archive_acl_to_text_*` prints it with ids is read back by the parser
+loop as exactly that entry. -/
+theorem nfs4_entry_parse (wide : Bool) (flags : Nat) (e : Entry) (tl rest : List Ch)
+    (o : ParseOut) (hwf : EntryWF e) (hq : QualOK e) (hn : IsNfs4 e.type)
+    (hx : hasFlag flags styleExtraId = true) (hend : EntryEnd wide tl rest) :
+    parseLoop wide typeNfs4 (entryText wide flags e ++ tl) o =
+      afterAdd wide typeNfs4 rest o e.type e.permset e.tag e.id (rtName e) := by
+  have hb := nfs4_bits hn
+  have hnp : ¬ IsPosix e.type := by
+    intro hp
+    rcases hp with h | h <;> rcases hn with h' | h' | h' | h' <;> rw [h] at h' <;> revert h' <;> decide
+  have hperm : e.permset &&& (permsNfs4 ||| inheritanceNfs4) = e.permset := by
+    have := hwf.perm_ok; rw [if_neg hnp] at this; exact this
+  have hidmax := hwf.id_range.2
+  obtain ⟨htw, htwc, htwne, hty0⟩ := typeWord_ok hn
+  have hpfx : decide (e.type = typeDefault ∧ hasFlag flags styleMarkDefault = true) = false := by
+    have : e.type ≠ typeDefault := fun h => hnp (Or.inr h)
+    simp [this]
+  rw [entryText_extra wide flags e hx, hpfx, appendEntry_nfs4 _ _ _ _ _ _ _ _ hn]
+  simp only [Bool.false_eq_true, if_false, List.nil_append]
+  generalize hcomp : hasFlag flags styleCompact = compact
+  rcases hwf.tag_ok with hug | ht | ht | ⟨hp', _⟩ | ⟨_, ht⟩
+  · -- user / group
+    obtain ⟨⟨hclean, hnum⟩, hidr⟩ := hq.ug hug
+    rw [qualPart_ug _ _ _ _ _ hug]
+    obtain ⟨word, hwd, htg, hwclean, hwne⟩ :
+        ∃ word, tagWord true e.tag = word ∧ nfs4TagSpec word = e.tag ∧ Clean word ∧ word ≠ [] := by
+      rcases hug with h | h <;> rw [h]
+      · exact ⟨str "user", by decide, by decide, str_clean.1, by decide⟩
+      · exact ⟨str "group", by decide, by decide, str_clean.2.1, by decide⟩
+    have hugd : e.tag = tagUser ∨ e.tag = tagGroup := hug
+    rw [hwd]
+    by_cases hne : e.name = []
+    · have hid0 : 0 ≤ e.id := by simpa [hne] using hidr
+      have hidn : ((e.id.toNat : Nat) : Int) = e.id := by omega
+      have hidm : e.id ≠ -1 := by omega
+      have hrt : rtName e = digits e.id.toNat := by simp [rtName, hug, hne]
+      simp only [hne, ne_eq, not_true_eq_false, if_false, hb.2, hidm, not_false_eq_true, if_true]
+      rw [hrt]
+      have key := nfs4_step wide word
+        [digits e.id.toNat, permChars wide e.permset compact, flagChars wide e.permset compact,
+          typeWord e.type, digits e.id.toNat] tl rest o hwne
+        (by
+          intro b hb'
+          simp only [List.mem_cons, List.not_mem_nil, or_false] at hb'
+          rcases hb' with h | h | h | h | h | h <;> rw [h]
+          · exact hwclean
+          · exact digits_clean _
+          · exact permChars_clean _ _ _
+          · exact flagChars_clean _ _ _
+          · exact htwc
+          · exact digits_clean _)
+        (by rw [getLast_six]; exact digits_ne_nil _) hend
+        e.type e.permset e.tag e.id (digits e.id.toNat) (digits_clean _)
+        (by
+          have := nfs4Core_ug wide (bfun 6 [word, digits e.id.toNat, permChars wide e.permset compact,
+              flagChars wide e.permset compact, typeWord e.type, digits e.id.toNat])
+            word (digits e.id.toNat) (typeWord e.type) (digits e.id.toNat) e.tag e.type e.permset compact
+            rfl htg hugd rfl rfl rfl rfl htw hty0 rfl hperm
+          rw [isintOr_digits _ _ (by omega), hidn] at this
+          exact this)
+      simpa [joinColon, appendId, List.append_assoc] using key
+    · have hnd := hnum hne
+      have hid1 : -1 ≤ e.id := by simpa [hne] using hidr
+      have hrt : rtName e = e.name := by simp [rtName, hne]
+      simp only [hne, ne_eq, not_false_eq_true, if_true]
+      rw [hrt]
+      by_cases hidm : e.id = -1
+      · simp only [hidm, not_true_eq_false, if_false, List.append_nil]
+        have key := nfs4_step wide word
+          [e.name, permChars wide e.permset compact, flagChars wide e.permset compact,
+            typeWord e.type] tl rest o hwne
+          (by
+            intro b hb'
+            simp only [List.mem_cons, List.not_mem_nil, or_false] at hb'
+            rcases hb' with h | h | h | h | h <;> rw [h]
+            · exact hwclean
+            · exact hclean
+            · exact permChars_clean _ _ _
+            · exact flagChars_clean _ _ _
+            · exact htwc)
+          (by rw [getLast_five]; exact htwne) hend
+          e.type e.permset e.tag (-1) e.name hclean
+          (by
+            have := nfs4Core_ug wide (bfun 6 [word, e.name, permChars wide e.permset compact,
+                flagChars wide e.permset compact, typeWord e.type])
+              word e.name (typeWord e.type) [] e.tag e.type e.permset compact
+              rfl htg hugd rfl rfl rfl rfl htw hty0 rfl hperm
+            rw [isintOr_nil, isintOr_nondigit _ _ hnd] at this
+            exact this)
+        simpa [joinColon, List.append_assoc] using key
+      · have hid0 : 0 ≤ e.id := by omega
+        have hidn : ((e.id.toNat : Nat) : Int) = e.id := by omega
+        simp only [hidm, not_false_eq_true, if_true]
+        have key := nfs4_step wide word
+          [e.name, permChars wide e.permset compact, flagChars wide e.permset compact,
+            typeWord e.type, digits e.id.toNat] tl rest o hwne
+          (by
+            intro b hb'
+            simp only [List.mem_cons, List.not_mem_nil, or_false] at hb'
+            rcases hb' with h | h | h | h | h | h <;> rw [h]
+            · exact hwclean
+            · exact hclean
+            · exact permChars_clean _ _ _
+            · exact flagChars_clean _ _ _
+            · exact htwc
+            · exact digits_clean _)
+          (by rw [getLast_six]; exact digits_ne_nil _) hend
+          e.type e.permset e.tag e.id e.name hclean
+          (by
+            have := nfs4Core_ug wide (bfun 6 [word, e.name, permChars wide e.permset compact,
+                flagChars wide e.permset compact, typeWord e.type, digits e.id.toNat])
+              word e.name (typeWord e.type) (digits e.id.toNat) e.tag e.type e.permset compact
+              rfl htg hugd rfl rfl rfl rfl htw hty0 rfl hperm
+            rw [isintOr_digits _ _ (by omega), hidn] at this
+            exact this)
+        simpa [joinColon, appendId, List.append_assoc] using key
+  all_goals first
+    | (exfalso; exact hnp hp')
+    | skip
+  all_goals
+    have hobj : e.tag = tagUserObj ∨ e.tag = tagGroupObj ∨ e.tag = tagEveryone := by simp [ht]
+    have hnug : ¬ IsUG e.tag := by unfold IsUG; rw [ht]; decide
+    obtain ⟨hidm, hnm⟩ := hq.other hnug
+    have hrt : rtName e = [] := by simp [rtName, hnm, hnug]
+    obtain ⟨word, hwd, htg, hwclean, hwne⟩ :
+        ∃ word, tagWord true e.tag = word ∧ nfs4TagSpec word = e.tag ∧ Clean word ∧ word ≠ [] := by
+      rw [ht]
+      first
+        | exact ⟨str "owner@", by decide, by decide, str_clean.2.2.2.2.1, by decide⟩
+        | exact ⟨str "group@", by decide, by decide, str_clean.2.2.2.2.2.1, by decide⟩
+        | exact ⟨str "everyone@", by decide, by decide, str_clean.2.2.2.2.2.2.1, by decide⟩
+    rw [qualPart_other_nfs4 _ _ _ _ _ hn hobj, hrt, hwd, hidm]
+    simp only [List.append_nil, not_true_eq_false, if_false]
+    have key := nfs4_step wide word
+      [permChars wide e.permset compact, flagChars wide e.permset compact, typeWord e.type] tl rest o hwne
+      (by
+        intro b hb'
+        simp only [List.mem_cons, List.not_mem_nil, or_false] at hb'
+        rcases hb' with h | h | h | h <;> rw [h]
+        · exact hwclean
+        · exact permChars_clean _ _ _
+        · exact flagChars_clean _ _ _
+        · exact htwc)
+      (by rw [getLast_four]; exact htwne) hend
+      e.type e.permset e.tag (-1) [] (by intro c hc; simp at hc)
+      (nfs4Core_obj wide (bfun 6 [word, permChars wide e.permset compact,
+          flagChars wide e.permset compact, typeWord e.type])
+        word (typeWord e.type) e.tag e.type e.permset compact
+        rfl htg hobj rfl rfl rfl htw hty0 rfl hperm)
+    simpa [joinColon, List.append_assoc] using key
+
 end LA.Acl
